@@ -24,7 +24,11 @@ sys.dont_write_bytecode = True
 # The API path passes the same kind of options as the command-line path (an
 # output file is named, so `check` is off and `analyze_annotated` keeps its
 # inference default); nothing is written there.
-API_OUT = "/sim/out/api/unused.pyi"
+# Root of everything a run creates. In-memory (SimFS) workers and real-FS
+# workers (a private tmpfs mounted at /srv inside the worker's own mount
+# namespace) use the SAME paths, because paths appear in error texts and pickles.
+ROOT = "/srv/vsim"
+API_OUT = ROOT + "/out/api/unused.pyi"
 
 
 class FakeClock:
@@ -70,14 +74,34 @@ def main():
     install_clock(clock)
   from sim import anacore
   from sim import simfs
+  realfs = bool(env.get("realfs"))
+  if realfs:
+    # we were started under `unshare -m`: a tmpfs only this process sees
+    import subprocess
+    ok = subprocess.run(["mount", "-t", "tmpfs", "tmpfs", "/srv"],
+                        capture_output=True).returncode == 0
+    if not ok or os.path.exists(ROOT):
+      sys.stdout.write(json.dumps({"realfs_failed": True}))
+      sys.exit(3)
   m = anacore.mods()
-  fs = anacore.new_fs()
+  if realfs:
+    fs = anacore.RealFS(ROOT)
+  else:
+    fs = anacore.new_fs()
   fs.logging = False
-  fs.makedirs("/sim/src")
-  fs.makedirs("/sim/out")
+  sim_now = [float(env.get("clock_start") or 1.0e9)]
+
+  def stamp():
+    if realfs:
+      fs.stamp(clock.now if clock is not None else sim_now[0])
+  fs.makedirs(ROOT + "/src")
+  fs.makedirs(ROOT + "/out")
   programs = job["programs"]
   for pid, p in programs.items():
-    fs.put("/sim/src/%s/%s.py" % (pid, p["module"]), p["src"])
+    fs.put(ROOT + "/src/%s/%s.py" % (pid, p["module"]), p["src"])
+  fs.put(ROOT + "/dummy.py", "")
+  fs.makedirs(os.path.dirname(API_OUT))
+  stamp()
   loaders = {}
   junk = []
   native_junk = []
@@ -92,39 +116,64 @@ def main():
 
   fault_fired = [False]
 
-  def ensure_dep(pid, form, opts_extra):
-    key = (pid, form)
-    if key in dep_files:
-      return dep_files[key]
+  dep_bytes = {}    # (pid, form) -> bytes of the built stub
+  occupant = {}     # path -> pid whose stub the file currently holds
+
+  def dep_path(pid, form):
+    # keyed by MODULE: variants of one upstream module (same module name,
+    # different content) take turns at the same path, like a file that is
+    # edited while a long-lived process keeps analysing
     p = programs[pid]
-    ext = ".pyi" if form == "text" else ".pickled"
-    out = "/sim/out/deps_%s/%s%s" % (form, p["module"], ext)
-    fs.makedirs(os.path.dirname(out))
-    items = []
-    for d in p.get("deps", []):
-      items.append((programs[d]["module"], ensure_dep(d, form, opts_extra)))
-    extra = {"quick": True}
-    if form == "pickle":
-      extra["use_pickled_files"] = True
-    r = anacore.run_step(
-        fs, "/sim/src/%s/%s.py" % (pid, p["module"]), module_name=p["module"],
-        output=out, pickle=(form == "pickle"), imports_map_items=items,
-        pythonpath="", report_errors=False, extra=extra)
-    probes["deps_built"] += 1
-    dep_files[key] = out
-    responses.append({"req": -1, "key": "dep/%s/%s" % (pid, form),
-                      "pyi": sha(r["pyi"]), "pickle": sha(r["pickle"]),
-                      "pickle_len": len(r["pickle"]) if r["pickle"] else None,
-                      "pyi_text": r["pyi"]})
+    return ROOT + "/out/deps_%s/%s%s" % (form, p["module"],
+                                         ".pyi" if form == "text" else ".pickled")
+
+  def ensure_dep(pid, form, opts_extra):
+    p = programs[pid]
+    out = dep_path(pid, form)
+    key = (pid, form)
+    if key not in dep_bytes:
+      fs.makedirs(os.path.dirname(out))
+      items = []
+      for d in p.get("deps", []):
+        items.append((programs[d]["module"], ensure_dep(d, form, opts_extra)))
+      extra = {"quick": True}
+      if form == "pickle":
+        extra["use_pickled_files"] = True
+      r = anacore.run_step(
+          fs, ROOT + "/src/%s/%s.py" % (pid, p["module"]), module_name=p["module"],
+          output=out, pickle=(form == "pickle"), imports_map_items=items,
+          pythonpath="", report_errors=False, extra=extra)
+      probes["deps_built"] += 1
+      data = fs.files.get(out)
+      dep_bytes[key] = data
+      occupant[out] = pid
+      responses.append({"req": -1, "key": "dep/%s/%s" % (pid, form),
+                        "pyi": sha(r["pyi"]), "pickle": sha(r["pickle"]),
+                        "pickle_len": len(r["pickle"]) if r["pickle"] else None,
+                        "pyi_text": r["pyi"]})
+      stamp()
+    elif occupant.get(out) != pid:
+      prev = occupant.get(out)
+      if dep_bytes[key] is not None:
+        fs.put(out, dep_bytes[key])
+      probes["dep_path_rewritten"] = probes.get("dep_path_rewritten", 0) + 1
+      if (prev is not None and dep_bytes.get((prev, form)) is not None
+          and dep_bytes[key] is not None
+          and len(dep_bytes[(prev, form)]) == len(dep_bytes[key])
+          and dep_bytes[(prev, form)] != dep_bytes[key]):
+        probes["dep_path_rewritten_same_size"] = (
+            probes.get("dep_path_rewritten_same_size", 0) + 1)
+      occupant[out] = pid
+      stamp()
     return out
 
   def serve(ri, req):
     kind = req["kind"]
     if kind == "builtins":
-      out = "/sim/out/builtins_%d.pickled" % ri
+      out = ROOT + "/out/builtins_%d.pickled" % ri
       try:
-        with simfs.Installed(fs, runner=False):
-          opts = anacore.make_options(fs, "/sim/dummy.py", module_name="main",
+        with anacore.installed(fs):
+          opts = anacore.make_options(fs, ROOT + "/dummy.py", module_name="main",
                                       pythonpath="")
           ldr = m["load_pytd"].create_loader(opts)
           for mod in req.get("preload", []):
@@ -141,11 +190,13 @@ def main():
       return
 
     p = programs[req["prog"]]
-    src_path = "/sim/src/%s/%s.py" % (req["prog"], p["module"])
+    src_path = ROOT + "/src/%s/%s.py" % (req["prog"], p["module"])
     form = req.get("dep_form", "text")
     opts_extra = dict(req.get("opts", {}))
+    for d in p.get("deps", []):
+      ensure_dep(d, form, opts_extra)      # builds (may shuffle occupants)
     items = [(programs[d]["module"], ensure_dep(d, form, opts_extra))
-             for d in p.get("deps", [])]
+             for d in p.get("deps", [])]   # direct deps occupy their paths
     if form == "pickle":
       opts_extra["use_pickled_files"] = True
     # ---- injected storage fault: the k-th read of a simulated file during
@@ -153,7 +204,7 @@ def main():
     fault = req.get("io_fault")
     fired = fault_fired
     fired[0] = False
-    if fault:
+    if fault and not realfs:
       import errno as _errno
       count = [0]
       code = getattr(_errno, fault["errno"])
@@ -180,7 +231,7 @@ def main():
                          sorted(opts_extra.items())])
       ent = loaders.get(lkey)
       if ent is None:
-        with simfs.Installed(fs, runner=False):
+        with anacore.installed(fs):
           o = anacore.make_options(fs, src_path, module_name=p["module"],
                                    nofail=True, imports_map_items=items,
                                    pythonpath="", output=API_OUT, **opts_extra)
@@ -194,7 +245,7 @@ def main():
           pass
       loader = ent[0]
       if req.get("loader") == "persist_dirty":
-        with simfs.Installed(fs, runner=False):
+        with anacore.installed(fs):
           for mod in req.get("force_imports", []):
             try:
               loader.import_name(mod)
@@ -207,7 +258,7 @@ def main():
         # many sources
         o = loaders[lkey][1]
         o.tweak(input=src_path)
-        with simfs.Installed(fs, runner=False), anacore.quiet():
+        with anacore.installed(fs), anacore.quiet():
           src = fs.get_text(src_path)
           try:
             ret, pyi = m["pio"].generate_pyi(src, o, loader)
@@ -229,7 +280,7 @@ def main():
                              api=True)
     else:
       out_kind = req.get("out", "pyi")
-      out = "/sim/out/r%d/%s%s" % (ri, p["module"],
+      out = ROOT + "/out/r%d/%s%s" % (ri, p["module"],
                                    ".pyi" if out_kind == "pyi" else ".pickled")
       fs.makedirs(os.path.dirname(out))
       r = anacore.run_step(fs, src_path, module_name=p["module"], output=out,
@@ -326,6 +377,7 @@ def main():
       del blob
       probes["junk_allocs"] += 1
 
+    stamp()
     try:
       serve(ri, req)
     except Exception as ex:  # pylint: disable=broad-except
@@ -341,6 +393,7 @@ def main():
     fault_fired[0] = False
 
   probes["clock_reads"] = clock.reads if clock else 0
+  probes["realfs_worker"] = 1 if realfs else 0
   json.dump({"responses": responses, "probes": probes, "sim_time": sim_time,
              "hashseed": os.environ.get("PYTHONHASHSEED")}, sys.stdout)
 
